@@ -50,12 +50,6 @@ theorem encodeStaticItems_cons (item : Dop) (n : Nat) (eop : Bool) (f : Nat) (x 
   · simp only [hgt, hlt, if_false, if_true, run_bind, emplaceBytes_zeros _ s1 hcb1]
   · simp only [hgt, hlt, if_false, run_bind, run_pure]
 
-/-- the values handed to the encoder: one dictionary per item -/
-def itemVals (ks : List (List Tree)) : List PVal := ks.map fun k => PVal.dict (Trees.pair k).val
-
-theorem itemVals_length (ks : List (List Tree)) : (itemVals ks).length = ks.length := by
-  simp [itemVals]
-
 /-- the static-field item loop of the model = the pure list of padded items -/
 theorem encodeStaticItems_eq (shape : List Tree) (n : Nat) (eop : Bool) : ∀ (ks : List (List Tree)) (m : Nat),
     (∀ k ∈ ks, itemOk shape k ∧ Trees.size k ≤ n ∧ Trees.need k ≤ m) → ∀ (fuel : Nat), ks.length + m + 3 ≤ fuel →
